@@ -874,7 +874,61 @@ def targeted_sets(seed):
         out.append(('custom-vs-root:' + name, {'base': base, 'alpha': M(body), 'alpha.custom': cust}))
         out.append(('custom-vs-root:' + name + ':schema', {'base': base, 'default': M([('menu', M([('page_size', S('5'))]))]),
                                                            'alpha.schema': M(body), 'alpha.custom': cust}))
+    # 16. (round 4) names that are string prefixes of one another without a path-segment boundary between them - sibling keys
+    #     punct / punct_ext, a / ab, list elements @1 / @10..@12: the longer-named node (or something below it) references
+    #     the shorter-named one, which carries a directive of its own; nothing here is cyclic
+    src2 = M([('k', w()), ('j', S('keep'))])
+    for short, long_ in (('punct', 'punct_ext'), ('a', 'ab'), ('key', 'key2')):
+        for deep in (False, True):
+            ref = M([('__include', S('/' + short)), ('own', w())])
+            out.append(('prefix-names:%s:%s' % (long_, 'deep' if deep else 'flat'),
+                        {'alpha': M([(short, M([('__include', S('/src')), ('x', w())])),
+                                     (long_, M([('sub', ref)]) if deep else ref),
+                                     ('src', src2), ('tail', M([('t', S('0'))]))]),
+                         'alpha.custom': M([('patch', M([('tail/t', S('9'))]))])}))
+            # the same without a .custom file: the root carries no directive, every reference is clear for the specification
+            out.append(('prefix-names:%s:%s:nocustom' % (long_, 'deep' if deep else 'flat'),
+                        {'alpha': M([(short, M([('__include', S('/src')), ('x', w())])),
+                                     (long_, M([('sub', ref)]) if deep else ref),
+                                     ('src', src2), ('tail', M([('t', S('0'))]))])}))
+    elems = [M([('i', S(str(i)))]) for i in range(13)]
+    elems[1] = M([('__include', S('/src')), ('i', S('1'))])
+    elems[10] = M([('__include', S('/list/@1')), ('own', w())])
+    elems[12] = M([('sub', M([('__include', S('/list/@1')), ('own', w())]))])
+    out.append(('prefix-names:list-@1-@10', {'alpha': M([('src', src2), ('list', L(elems)), ('tail', M([('t', S('0'))]))]),
+                                              'alpha.custom': M([('patch', M([('tail/t', S('9'))]))])}))
+    out.append(('prefix-names:list-@1-@10:nocustom', {'alpha': M([('src', src2), ('list', L(elems)), ('tail', M([('t', S('0'))]))])}))
+    # 17. (round 4) one document includes two nodes of another document whose root is patched by its .custom file (and which
+    #     refers to one of those nodes itself): whatever the order of the two includes, each is a copy of the node as the
+    #     other document compiles it
+    lib = M([('shape', M([('colour', S('red')), ('size', w())])), ('alias', M([('__include', S('/shape'))])),
+             ('misc', M([('m', w())]))])
+    libc = M([('patch', M([('shape/colour', S('blue'))]))])
+    for order in ('misc-first', 'shape-first'):
+        inc = [('first', M([('__include', S('lib:/misc'))])), ('second', M([('__include', S('lib:/shape'))]))]
+        out.append(('xdoc-include:' + order, {'lib': lib, 'lib.custom': libc, 'app': M(inc if order == 'misc-first' else inc[::-1])}))
+    out.append(('xdoc-include:no-inner-reference', {'lib': M([('shape', M([('colour', S('red'))])), ('misc', M([('m', w())]))]),
+                                                    'lib.custom': libc,
+                                                    'app': M([('first', M([('__include', S('lib:/misc'))])),
+                                                              ('second', M([('__include', S('lib:/shape'))]))])}))
     return out
+
+
+def bare_xdoc_includes(docs):
+    """[(document, key, other document, [path keys])] for top-level entries of the form key: {__include: other:/a/b} (nothing else in
+    the map, no .custom file for the including document)"""
+    res = []
+    for d, y in docs.items():
+        if d.endswith('.custom') or (d + '.custom') in docs or y[0] != 'M':
+            continue
+        for k, v in y[1]:
+            if v[0] == 'M' and len(v[1]) == 1 and v[1][0][0] == '__include' and v[1][0][1][0] == 'S':
+                ref = v[1][0][1][1]
+                if ':/' in ref and not ref.endswith('?'):
+                    other, path = ref.split(':/', 1)
+                    if other in docs and other != d and all(seg and not seg.startswith('@') for seg in path.split('/')):
+                        res.append((d, k, other, path.split('/')))
+    return res
 
 
 def has_mid_path_insert(docs):
